@@ -1,8 +1,9 @@
 use std::{borrow::Cow, fmt::Write};
 
+use super::escape_string_strict_buf;
 use jrsonnet_evaluator::{
 	bail, in_description_frame,
-	manifest::{escape_string_json_buf, ManifestFormat},
+	manifest::ManifestFormat,
 	Result, ResultExt, Val,
 };
 
@@ -210,7 +211,7 @@ fn manifest_yaml_ex_buf(
 			} else if !options.quote_values && bare_safe(&s) {
 				buf.push_str(&s);
 			} else {
-				escape_string_json_buf(&s, buf);
+				escape_string_strict_buf(&s, buf);
 			}
 		}
 		Val::Num(n) => write!(buf, "{}", *n).unwrap(),
@@ -271,7 +272,7 @@ fn manifest_yaml_ex_buf(
 				if !options.quote_keys && bare_safe(&key) {
 					buf.push_str(&key);
 				} else {
-					escape_string_json_buf(&key, buf);
+					escape_string_strict_buf(&key, buf);
 				}
 				buf.push(':');
 				let prev_len = cur_padding.len();
